@@ -420,6 +420,7 @@ struct AsmCall {
   std::string text;
   std::vector<std::string> lines;
   bool alias = false;
+  bool null_dest = false;  // counting entry points: NULL where the count is to be stored (only needed once something is counted)
 };
 
 // perform one assemble-type call on instance I; returns ret (or -99 on crash)
@@ -433,9 +434,9 @@ static int do_asm_call(Run &R, TaskRt &T, Inst &I, const AsmCall &a, const std::
   ctx.reset_op(env, uid);
   int j = in_lib(R, ctx, [&] {
     if (a.via_file)
-      ret = a.counting ? lib::count_file(I.al, tb, (int)cc, &dest) : lib::asm_file(I.al, tb, a.alias);
+      ret = a.counting ? lib::count_file(I.al, tb, (int)cc, a.null_dest ? nullptr : &dest) : lib::asm_file(I.al, tb, a.alias);
     else
-      ret = a.counting ? lib::count_str(I.al, tb, (int)cc, &dest, a.alias) : lib::asm_str(I.al, tb, a.alias);
+      ret = a.counting ? lib::count_str(I.al, tb, (int)cc, a.null_dest ? nullptr : &dest, a.alias) : lib::asm_str(I.al, tb, a.alias);
   });
   (void)T;
   *jcode = j;
@@ -649,6 +650,7 @@ static void exec_asm(Run &R, TaskRt &T, int ti, int oi, const Op &op) {
   a.via_file = op.kind == OP_ASM_FILE || op.kind == OP_COUNT_FILE;
   a.c = op.c;
   a.alias = op.alias;
+  a.null_dest = a.counting && op.on;
   int file_kind = -1;  // -1 missing
   if (a.via_file) {
     a.path = op.path;
@@ -810,6 +812,16 @@ static void exec_asm(Run &R, TaskRt &T, int ti, int oi, const Op &op) {
     wv.cap = W.m.cap;
     wv.ok = true;
     refresh_mirror(W, wv, 0);
+  }
+
+  if (a.null_dest) {
+    // what a counting call does without a place for the count is not written down anywhere; the twin comparison above is
+    // all there is to say (file and memory must agree), the instance is restarted by the next set_offset
+    m.offset_unspec = true;
+    m.offset_explicit = false;
+    m.segs.clear();
+    refresh_mirror(I, cv, 0);
+    return;
   }
 
   // ---- fresh twin (C15): the same call on a new instance brought to the same settings.  Compared before
